@@ -13,6 +13,12 @@ const COEF: [f64; 4] = [-1.0, 0.0, 0.5, 2.0];
 #[derive(Clone, Copy, Debug)]
 struct Poly([f64; 4]); // c0 + c1 x + c2 x^2 + c3 x^3
 
+thread_local! {
+    /// the polynomials of the current job are polynomials in (x - CENTER): on an axis far from the
+    /// origin the data stay small and exact (a job runs on one thread from start to end)
+    static CENTER: std::cell::Cell<f64> = const { std::cell::Cell::new(0.0) };
+}
+
 impl Poly {
     fn all(max_deg: usize) -> Vec<Poly> {
         let mut v = vec![];
@@ -34,14 +40,17 @@ impl Poly {
         (0..4).rev().find(|&i| self.0[i] != 0.0).unwrap_or(0)
     }
     fn at(&self, x: Rat) -> Rat {
+        let x = x - Rat::from_f64(CENTER.with(|c| c.get()));
         let c: Vec<Rat> = self.0.iter().map(|&v| Rat::from_f64(v)).collect();
         c[0] + x * (c[1] + x * (c[2] + x * c[3]))
     }
     fn d1(&self, x: Rat) -> Rat {
+        let x = x - Rat::from_f64(CENTER.with(|c| c.get()));
         let c: Vec<Rat> = self.0.iter().map(|&v| Rat::from_f64(v)).collect();
         c[1] + x * (Rat::int(2) * c[2] + x * Rat::int(3) * c[3])
     }
     fn d2(&self, x: Rat) -> Rat {
+        let x = x - Rat::from_f64(CENTER.with(|c| c.get()));
         let c: Vec<Rat> = self.0.iter().map(|&v| Rat::from_f64(v)).collect();
         Rat::int(2) * c[2] + x * Rat::int(6) * c[3]
     }
@@ -71,6 +80,8 @@ struct Job {
     ax: Axis,
     kind: Kind,
     f32: bool,
+    /// the polynomials are polynomials in (x - center)
+    center: f64,
 }
 impl Job {
     fn key(&self) -> String {
@@ -102,7 +113,11 @@ fn spline_lanes<T: Fl>(x: &[f64]) -> Vec<LaneSpec> {
     let n = x.len();
     let (x0, xn) = (Rat::from_f64(x[0]), Rat::from_f64(x[n - 1]));
     let mut v = vec![];
-    for p in Poly::all(3) {
+    // the very first lane holds values near 2^41 (if representable): the other lanes must not notice
+    let big = Poly([2.0f64.powi(41), -1.0, 0.5, 2.0]);
+    // ... nor may two small, fine-grained signals (bits far below the ulp of 2^41)
+    let fine = [Poly([1.0 / 1024.0, 0.5 / 1024.0, -0.125 / 1024.0, 1.0 / 65536.0]), Poly([-2.0 / 8192.0, 0.75 / 8192.0, 0.0, 0.0])];
+    for p in std::iter::once(big).chain(fine).chain(Poly::all(3)) {
         // the data must be exactly representable
         let ys: Option<Vec<T>> = x
             .iter()
@@ -650,16 +665,24 @@ fn body(ctx: &Ctx) -> (Summary, Meta) {
             sp.extend(alpha::full_word_axes(&alpha::hw(), "W", 3, if quick { 4 } else { 5 }, &[0.0]));
         }
         for a in &sp {
-            jobs.push(Job { ax: a.clone(), kind: Kind::Spline, f32 });
+            jobs.push(Job { ax: a.clone(), kind: Kind::Spline, f32, center: 0.0 });
+        }
+        // axes far from the origin (|x| / h about 2^21) with spacings that are not powers of two; the
+        // polynomials are taken in (x - first knot)
+        for w in [vec![3.0, 6.0, 1.5, 3.0], vec![1.5, 1.5, 3.0, 6.0, 3.0], vec![6.0, 3.0, 3.0], vec![3.0, 3.0, 3.0, 3.0, 3.0, 1.5]] {
+            for c in [3145729.0, -3145727.0] {
+                let a = alpha::axis_from_word("far", c, &w);
+                jobs.push(Job { ax: a, kind: Kind::Spline, f32, center: c });
+            }
         }
         let lin = alpha::full_word_axes(&alpha::h3(), "w", 2, if quick { 4 } else { 6 }, &alpha::OFFSETS);
         for a in &lin {
-            jobs.push(Job { ax: a.clone(), kind: Kind::Linear, f32 });
+            jobs.push(Job { ax: a.clone(), kind: Kind::Linear, f32, center: 0.0 });
         }
         let a2 = alpha::full_word_axes(&alpha::h3(), "w", 2, if quick { 3 } else { 4 }, &[0.0, -3.0]);
         for ax in &a2 {
             for ay in &a2 {
-                jobs.push(Job { ax: ax.clone(), kind: Kind::Bilinear(ay.clone()), f32 });
+                jobs.push(Job { ax: ax.clone(), kind: Kind::Bilinear(ay.clone()), f32, center: 0.0 });
             }
         }
     }
@@ -675,6 +698,7 @@ fn body(ctx: &Ctx) -> (Summary, Meta) {
     }
     let mut sum = run_jobs(ctx, "polynomial-reproduction", &jobs, |j| j.key(), |j| {
         let mut out = JobOut::default();
+        CENTER.with(|c| c.set(j.center));
         match (&j.kind, j.f32) {
             (Kind::Spline, false) => run_spline::<f64>(j, &mut out),
             (Kind::Spline, true) => run_spline::<f32>(j, &mut out),
@@ -694,7 +718,7 @@ fn body(ctx: &Ctx) -> (Summary, Meta) {
         out
     }));
     let meta = Meta {
-        rule: "all 256 polynomials with coefficients in {-1,0,1/2,2} of degree <= 3; per axis ONE Individual build whose lanes are every (polynomial, left condition, right condition) with conditions the polynomial satisfies (NotAKnot for n>=4, FirstDeriv(p'), SecondDeriv(p''), Natural iff p''=0, Clamped iff p'=0; n=3: one NotAKnot end + a derivative end, both NotAKnot for degree<=2) - so every lane has its own boundary pair and values - plus the whole-data-set NotAKnot default, row-level NotAKnot and Natural-for-lines builds; affine functions for Linear; all 256 forms a+bx+cy+dxy for Bilinear; queries: in-range grid (4 per interval) and 4 extrapolated ones. Oracle: exact polynomial value. Non-trivial = degree >= 2 (spline), degree 1 (Linear), d != 0 (Bilinear). Phase integer-element-types (i32, i64 incl. constant terms 2^30+1 / 2^60+1; u32, u64 on non-negative data rising along both axes, in-range queries): every interval word over {1,2,3} (1..3 (4) intervals, 2 offsets), Linear on a + b x (25 coefficient pairs) and Bilinear on all 256 forms with coefficients in {-1,0,1,2}, extrapolation on, every integer query from 3 (2) below to 3 (2) above the range; all divisions are exact there, slack 1 unit.".into(),
+        rule: "all 256 polynomials with coefficients in {-1,0,1/2,2} of degree <= 3; per axis ONE Individual build whose lanes are every (polynomial, left condition, right condition) with conditions the polynomial satisfies (NotAKnot for n>=4, FirstDeriv(p'), SecondDeriv(p''), Natural iff p''=0, Clamped iff p'=0; n=3: one NotAKnot end + a derivative end, both NotAKnot for degree<=2) - so every lane has its own boundary pair and values - plus the whole-data-set NotAKnot default, row-level NotAKnot and Natural-for-lines builds; affine functions for Linear; all 256 forms a+bx+cy+dxy for Bilinear; queries: in-range grid (4 per interval) and 4 extrapolated ones. Spline jobs also on axes 3*2^20 away from the origin with spacings 1.5 / 3 / 6 (polynomials in x - x0), and with a first lane whose values are near 2^41. Oracle: exact polynomial value. Non-trivial = degree >= 2 (spline), degree 1 (Linear), d != 0 (Bilinear). Phase integer-element-types (i32, i64 incl. constant terms 2^30+1 / 2^60+1; u32, u64 on non-negative data rising along both axes, in-range queries): every interval word over {1,2,3} (1..3 (4) intervals, 2 offsets), Linear on a + b x (25 coefficient pairs) and Bilinear on all 256 forms with coefficients in {-1,0,1,2}, extrapolation on, every integer query from 3 (2) below to 3 (2) above the range; all divisions are exact there, slack 1 unit.".into(),
         bounds: format!("{njobs} (type, axis/grid, strategy) jobs; tier {}", ctx.tier.name()),
         assumptions: vec!["tolerance K eps scale inside, 16 K eps scale |t|^3 outside, with scale = max(|y_i|, |h_i p'(x_i)|, |p(q)|)".into()],
         extra: vec![],
